@@ -39,7 +39,11 @@ class FsmFacts:
             f = repo.func(f"ramses_tx.frame.Frame.{prop}")
             body = [s for s in f.node.body if not (isinstance(s, ast.Expr) and isinstance(s.value, ast.Constant))]
             first = body[0] if body else None
-            shape = isinstance(first, ast.If) and norm(first.test) == f"self.{memo} is not None" and isinstance(first.body[0], ast.Return) and norm(first.body[0].value) == f"self.{memo}"
+            # (A) `if self.M is not None: return self.M` first; or (B) everything but the final `return self.M` sits under
+            # `if self.M is None:` - either way a non-None memo is returned without any computation
+            shape_a = isinstance(first, ast.If) and norm(first.test) == f"self.{memo} is not None" and isinstance(first.body[0], ast.Return) and norm(first.body[0].value) == f"self.{memo}"
+            shape_b = bool(body) and all((isinstance(st, ast.If) and norm(st.test) == f"self.{memo} is None" and not st.orelse) or (isinstance(st, ast.Return) and st.value is not None and norm(st.value) == f"self.{memo}") for st in body) and isinstance(body[-1], ast.Return)
+            shape = shape_a or shape_b
             if not shape:
                 ok = False
                 self.notes.append(f"Frame.{prop} no longer starts with the memo early-return")
@@ -47,7 +51,7 @@ class FsmFacts:
         f = repo.func("ramses_tx.frame.Frame._hdr")
         seen_assign = False
         once = False
-        for s in f.node.body:
+        for s in sorted((x for x in own_nodes(f.node) if isinstance(x, ast.Assign)), key=lambda x: x.lineno):
             if isinstance(s, ast.Assign) and norm(s.targets[0]) == "self._hdr_":
                 if "pkt_header" in norm(s.value):
                     once = seen_assign
@@ -74,6 +78,8 @@ class FsmFacts:
     # -- P1 ---------------------------------------------------------------------------------
 
     def _p1(self) -> bool:
+        from .props.common import expand as _expand_q
+
         repo, ctx = self.ctx.repo, self.ctx
         sc = repo.func(f"{MOD}.ProtocolContext.send_cmd")
         # single producer of queue entries
@@ -82,7 +88,7 @@ class FsmFacts:
             if g.module.name != MOD:
                 continue
             for n in own_nodes(g.node):
-                if isinstance(n, ast.Call) and isinstance(n.func, ast.Attribute) and n.func.attr in ("put_nowait", "put") and "_que" in norm(n.func.value):
+                if isinstance(n, ast.Call) and isinstance(n.func, ast.Attribute) and n.func.attr in ("put_nowait", "put") and ("_que" in norm(n.func.value) or "_que" in norm(_expand_q(g.node, n.func.value, pure_only=False))):
                     puts.append((g, n))
         if not puts:
             raise AnalysisError("no put_nowait() on the FSM queue found")
